@@ -20,7 +20,7 @@ EXPLANATION = PG.EXPL
 ASSUMPTIONS = PG.ASSUME
 BOUNDS = {'quick': 'first lines "OK MPD " + 0..3 free bytes (0x00..0xff) + LF; first lines whose first 1..3 bytes are free; 8-byte first lines with two free bytes at the end and no line end; each under {one read, one byte per read, two '
                    'reads}, blocking and async connect; asserted: connected iff prefix, non-empty version without LF, valid UTF-8 (then protocol_version() == the version bytes), otherwise InvalidMessage, or UnexpectedEof when the stream ends '
-                   'before the line end. Password exchange: Client::connect_with_password (real do_connect coroutine) against a simulated server answering OK / ACK / closing / garbage: first line written is the password, idle only after acceptance, IncorrectPassword resp. protocol error with nothing further written',
+                   'before the line end. Password exchange: Client::connect_with_password and connect_with_password_opt (Some(password), Some(""), None; real do_connect coroutine) against a simulated server answering OK / ACK / closing / garbage: first line written is the password, idle only after acceptance, IncorrectPassword resp. protocol error with nothing further written',
           'thorough': 'versions of 0..5 free bytes, prefixes of 1..4 free bytes'}
 REQUIRED_CLASSES = ['greeting ok', 'greeting invalid', 'greeting eof', 'password OK', 'password ACK', 'password close']
 RULE = 'one evaluation = one feasible path (first line x segmentation); all are non-trivial'
